@@ -88,18 +88,6 @@ package xy
 //@   at stmt16: assert mul(i, stride) == i * stride && mul(start, stride) == start * stride && mul(end, stride) == end * stride
 //@   at stmt16: assert dist == d2at(cells(ls), off(ls), stride, start, end, i)
 //@   at loop2.end: assert d2at(cells(ls), off(ls), stride, start, end, i - 1) <= maxDist
-//@   at stmt24: assert forall k int :: 0 <= k && k + 1 < len(stack) && (len(stack) - k) % 2 == 0 ==> stack[k] < stack[k+1]
-//@   at stmt24: assert forall k int :: 0 <= k && k + 1 < len(stack) && (len(stack) - k) % 2 == 1 ==> stack[k] == stack[k+1]
-//@   at stmt24: assert forall k int :: 0 <= k && k < len(stack) ==> 0 <= stack[k] && stack[k] < len(mask) && mask[stack[k]] == 1 && mul(stack[k] + 1, stride) == mul(stack[k], stride) + stride && 0 <= mul(stack[k], stride)
-//@   at stmt25: assert forall k int :: 0 <= k && k + 1 < len(stack) && (len(stack) - k) % 2 == 0 ==> stack[k] < stack[k+1]
-//@   at stmt25: assert forall k int :: 0 <= k && k + 1 < len(stack) && (len(stack) - k) % 2 == 1 ==> stack[k] == stack[k+1]
-//@   at stmt25: assert forall k int :: 0 <= k && k < len(stack) ==> 0 <= stack[k] && stack[k] < len(mask) && mask[stack[k]] == 1 && mul(stack[k] + 1, stride) == mul(stack[k], stride) + stride && 0 <= mul(stack[k], stride)
-//@   at stmt24: assert forall a, b int :: 0 <= a && a <= b && b < len(stack) ==> stack[a] <= stack[b]
-//@   at stmt25: assert forall a, b int :: 0 <= a && a <= b && b < len(stack) ==> stack[a] <= stack[b]
-//@   at stmt24: assert forall k, w int :: 0 <= k && k + 1 < len(stack) && (len(stack) - k) % 2 == 0 && stack[k] < w && w < stack[k+1] ==> mask[w] == 0
-//@   at stmt25: assert forall k, w int :: 0 <= k && k + 1 < len(stack) && (len(stack) - k) % 2 == 0 && stack[k] < w && w < stack[k+1] ==> mask[w] == 0
-//@   at stmt24: assert forall u, v, i int :: {d2at(cells(ls), off(ls), stride, u, v, i)} end <= u && u < i && i < v && v < len(mask) && mask[u] == 1 && mask[v] == 1 && noMarks(heapfor("byte"), mask, u, v) ==> d2at(cells(ls), off(ls), stride, u, v, i) <= threshold * threshold
-//@   at stmt25: assert forall u, v, i int :: {d2at(cells(ls), off(ls), stride, u, v, i)} start <= u && u < i && i < v && v < len(mask) && mask[u] == 1 && mask[v] == 1 && noMarks(heapfor("byte"), mask, u, v) ==> d2at(cells(ls), off(ls), stride, u, v, i) <= threshold * threshold
 //@   loop 1:
 //@     invariant [shape] l == len(stack) && l >= 0 && l % 2 == 0 && fresh(stack) && (l > 0 ==> stack[0] == 0) && found >= 2
 //@     invariant [range] forall k int :: 0 <= k && k < l ==> 0 <= stack[k] && stack[k] < len(mask) && mask[stack[k]] == 1 && mul(stack[k] + 1, stride) == mul(stack[k], stride) + stride && 0 <= mul(stack[k], stride)
@@ -261,14 +249,39 @@ package xy
 //@     invariant calc.totalLength == old(calc.totalLength) + lsum(cells(pts), off(pts), stride, m)
 //@     invariant calc.centSum[0] == old(calc.centSum[0]) + msum(cells(pts), off(pts), stride, 0, m) && calc.centSum[1] == old(calc.centSum[1]) + msum(cells(pts), off(pts), stride, 1, m)
 
-// ring direction: totality only (indices stay inside the ring for every closed ring of at least four coordinates);
-// that the answer is the sign of the area for simple rings is a Jordan-curve-level fact outside this family
+// ring direction: the verdict is read off the turn at the ring's first highest vertex, between its nearest
+// distinct neighbours in the cyclic order (topIdx / rccPrev / rccNext / rccTurn in specs/xy.spec); every index
+// stays inside the ring. That this equals the sign of the area for simple rings is a Jordan-curve-level fact
+// outside this family; termination of the two neighbour searches is not proved (decreases *)
 //@ func IsRingCounterClockwise
 //@   floats real
-//@   trusted
+//@   lemmas mulCancel, mulCancel2, mulNonneg, mulMono
 //@   requires strideOf(layout) >= 2 && whole(len(ring), strideOf(layout)) && cnt(len(ring), strideOf(layout)) >= 4
+//@   ensures res <==> rccTurn(cells(ring), off(ring), rccPrev(cells(ring), off(ring), strideOf(layout), len(ring) - strideOf(layout), topIdx(cells(ring), off(ring), strideOf(layout), cnt(len(ring), strideOf(layout)) - 1), topIdx(cells(ring), off(ring), strideOf(layout), cnt(len(ring), strideOf(layout)) - 1)), topIdx(cells(ring), off(ring), strideOf(layout), cnt(len(ring), strideOf(layout)) - 1), rccNext(cells(ring), off(ring), strideOf(layout), len(ring) - strideOf(layout), topIdx(cells(ring), off(ring), strideOf(layout), cnt(len(ring), strideOf(layout)) - 1), topIdx(cells(ring), off(ring), strideOf(layout), cnt(len(ring), strideOf(layout)) - 1)))
 //@   modifies nothing
 //@   decreases *
+//@   loop 1:
+//@     ghost m int = 1 step m + 1
+//@     invariant m >= 1 && i == mul(m, stride) && m <= cnt(len(ring), stride) && stride == strideOf(layout) && nOrds == len(ring) - stride && len(ring) == mul(cnt(len(ring), stride), stride)
+//@     invariant hiIndex == topIdx(cells(ring), off(ring), stride, m - 1) && 0 <= hiIndex && hiIndex <= len(ring) - stride
+//@   at stmt12: assert m == cnt(len(ring), stride)
+//@   at stmt12: assert hiIndex == topIdx(cells(ring), off(ring), strideOf(layout), cnt(len(ring), strideOf(layout)) - 1)
+//@   at stmt15: assert (!same2(cells(ring), off(ring), iPrev, hiIndex) || iPrev == hiIndex) ==> iPrev == rccPrev(cells(ring), off(ring), stride, nOrds, hiIndex, hiIndex)
+//@   at stmt21: assert iNext == (g + stride >= nOrds ? g + stride - nOrds : g + stride)
+//@   at stmt21: assert (!same2(cells(ring), off(ring), iNext, hiIndex) || iNext == hiIndex) ==> iNext == rccNext(cells(ring), off(ring), stride, nOrds, hiIndex, hiIndex)
+//@   at stmt20: assert iNext == rccNext(cells(ring), off(ring), stride, nOrds, hiIndex, hiIndex) && iPrev == rccPrev(cells(ring), off(ring), stride, nOrds, hiIndex, hiIndex)
+//@   at stmt20: assert (same2(cells(ring), off(ring), iPrev, hiIndex) || same2(cells(ring), off(ring), iNext, hiIndex) || same2(cells(ring), off(ring), iPrev, iNext)) ==> !rccTurn(cells(ring), off(ring), iPrev, hiIndex, iNext)
+//@   at stmt19: assert iPrev == rccPrev(cells(ring), off(ring), stride, nOrds, hiIndex, hiIndex)
+//@   loop 2:
+//@     decreases *
+//@     invariant 0 <= iPrev && iPrev <= nOrds && 0 <= hiIndex && hiIndex <= nOrds
+//@     invariant rccPrev(cells(ring), off(ring), stride, nOrds, hiIndex, iPrev) == rccPrev(cells(ring), off(ring), stride, nOrds, hiIndex, hiIndex)
+//@   loop 3:
+//@     decreases *
+//@     ghost g int = hiIndex step iNext
+//@     invariant g == iNext && 0 <= iNext && iNext <= nOrds && (iNext < nOrds || iNext == hiIndex) && 0 <= iPrev && iPrev <= nOrds && 0 <= hiIndex && hiIndex <= nOrds && 2 <= stride && stride <= nOrds
+//@     invariant iPrev == rccPrev(cells(ring), off(ring), stride, nOrds, hiIndex, hiIndex)
+//@     invariant rccNext(cells(ring), off(ring), stride, nOrds, hiIndex, iNext) == rccNext(cells(ring), off(ring), stride, nOrds, hiIndex, hiIndex)
 
 //@ func AreaCentroidCalculator.addShell
 //@   floats real
